@@ -40,6 +40,7 @@ pub fn gen_medium_op(rng: &mut Rng) -> Op {
             };
             Op::new("med.bigexp").a(rng.below(100)).b(rng.below(2)).c(2 + rng.below(2)).form(rng.below(2)).n(exp).m(prec)
         }
+        8 if rng.chance(1, 3) => Op::new("med.jtext").a(slot(rng)).dst(slot(rng)).c(rng.pick(&[0u64, 1, 4, 5])).n(rng.below(9) as i64),
         8 => Op::new("med.tokens").a(slot(rng)).b(slot(rng)).dst(slot(rng)).c(pool).n(rng.next() as i64).m(rng.below(1 << 30) as i64),
         7 => Op::new("med.bytes").a(slot(rng)).dst(slot(rng)).c(rng.below(2)).form(rng.below(2)).m(fault.min(7)).lit(lit),
         _ => Op::new("med.text").a(slot(rng)).dst(slot(rng)).c(pool).m(fault.min(7)).lit(lit),
